@@ -418,3 +418,10 @@ func TestVerifC17Race(t *testing.T) {
 func TestVerifKnownProbesC01(t *testing.T) { vs.RunFixed(t, "C01", vw.ProbesC01(compositeFactory)) }
 func TestVerifKnownProbesC02(t *testing.T) { vs.RunFixed(t, "C02", vw.ProbesC02(compositeFactory)) }
 func TestVerifKnownProbesC08(t *testing.T) { vs.RunFixed(t, "C08", vw.ProbesC08(compositeFactory)) }
+
+// Native fuzzing (thorough tier) of hook responses: bytes -> choices -> the C13 grammar and oracle.
+func FuzzVerifC13Response(f *testing.F) {
+	seeds := [][]byte{{}, {0, 1, 2, 3, 4, 5, 6, 7, 8, 9, 10, 11, 12, 13, 14, 15, 16, 17, 18, 19, 20, 21, 22, 23, 24, 25, 26, 27, 28, 29, 30},
+		{9, 8, 7, 6, 5, 4, 3, 2, 1, 0, 9, 8, 7, 6, 5, 4, 3, 2, 1, 0, 9, 8, 7, 6, 5, 4, 3, 2, 1, 0, 2, 2, 2, 2}}
+	vs.RunFuzz(f, "C13", "TestVerifC13Composite", seeds, func(c *vs.Case) error { return vw.PropC13(c, compositeFactory, "composite") })
+}
